@@ -257,7 +257,7 @@ Theorem extend_frame fuel m s doc m' s' :
   extend fuel m s doc = Ok (m', s') -> forall o, o < m_next m -> mget m' o = mget m o.
 Proof.
   intros H. unfold extend in H. destruct (extend_x fuel m s doc) as [r| |] eqn:Hx; try discriminate.
-  unfold extend_x in Hx. cbv zeta in Hx. destruct (negb (collect_ok m s (normalise doc))); [discriminate|].
+  unfold extend_x in Hx. destruct (negb (collect_ok m s doc)); [discriminate|].
   set (n0 := m_next m) in *.
   destruct (reserve m _) as [m1 plan_old] eqn:R1. destruct (reserve m1 _) as [m2 plan_new] eqn:R2.
   destruct (reserve_fr n0 [] _ _ _ _ (N.le_refl _) R1) as (F1 & P1).
@@ -303,7 +303,7 @@ Proof.
     destruct (N.lt_ge_cases b (m_next m)) as [Hlt|Hle]; [assumption|].
     pose proof (Hb n b Hnb) as Hg. rewrite (Hf b Hle) in Hg. discriminate. }
   unfold extend in H. destruct (extend_x fuel m s doc) as [r| |] eqn:Hx; try discriminate.
-  unfold extend_x in Hx. cbv zeta in Hx. destruct (negb (collect_ok m s (normalise doc))); [discriminate|].
+  unfold extend_x in Hx. destruct (negb (collect_ok m s doc)); [discriminate|].
   destruct (reserve m _) as [m1 plan_old]. destruct (reserve m1 _) as [m2 plan_new].
   repeat match type of Hx with xbind ?b _ = _ => destruct b as [?| |]; simpl in Hx; try discriminate end.
   repeat match type of Hx with (let '(_, _) := ?p in _) = _ => destruct p end.
